@@ -76,8 +76,8 @@ SUMMARY = {
  "C01e": "tx.rollback() reloads the freelist only when tx.pages is non-empty, and Tx.write empties tx.pages first (same idea as C07a, independent)",
  "C06d": "DB.meta() accepts the higher-txid meta on magic and version alone (same patch as C11c, independent): after a torn meta write the next commit overwrites the newest valid meta",
  "C08d": "tx.rollback() reloads the freelist from the failed transaction's own (uncommitted) freelist page instead of the committed one",
- "C12d": "?",
- "C20d": "?",
+ "C12d": "SetSequence/NextSequence materialise the root node only for inline buckets (a sequence change of an otherwise untouched paged bucket is not written)",
+ "C20d": "common.CopyFile (first step of every surgery command) truncates the copy to the high-water mark read from meta page 0 when the file has 16 MiB of slack (stale when meta 1 is the active one)",
 }
 rows = []
 for d in sorted(glob.glob("/verif/seeded/*/meta.json")):
